@@ -82,6 +82,26 @@ def gen_glue(m, flags, name="p"):
             A('  if (!strcmp(name, "%s")) { memcpy(&st->c.%s, b, n > sizeof(st->c.%s) ? sizeof(st->c.%s) : n); st->%s_counter = (__typeof__(st->%s_counter))len; return; }'
               % (n, n, n, n, n, n))
     A('}')
+    # snapshot / restore of the whole parser context (for the single-step sweep)
+    dstrs = [o for o in m['outs'] if o['type'] == 'str'] if dyn else []
+    A('static PSTATE glue_saved;')
+    for o in dstrs:
+        A('static int glue_saved_null_%s; static unsigned char glue_saved_buf_%s[%d];' % (o['name'], o['name'], max(1, o['size'])))
+    A('static void glue_save(PSTATE *st) {')
+    A('  glue_saved = *st;')
+    for o in dstrs:
+        n = o['name']
+        A('  glue_saved_null_%s = (st->c.%s == NULL); if (st->c.%s) memcpy(glue_saved_buf_%s, st->c.%s, %d);' % (n, n, n, n, n, o['size']))
+    A('}')
+    A('static void glue_restore(PSTATE *st) {')
+    for o in dstrs:
+        A('  void *p_%s = st->c.%s;' % (o['name'], o['name']))
+    A('  *st = glue_saved;')
+    for o in dstrs:
+        n = o['name']
+        A('  if (glue_saved_null_%s) { if (p_%s) v_free(p_%s); st->c.%s = NULL; }' % (n, n, n, n))
+        A('  else { if (!p_%s) p_%s = v_malloc(%d); memcpy(p_%s, glue_saved_buf_%s, %d); st->c.%s = p_%s; }' % (n, n, o['size'], n, n, o['size'], n, n))
+    A('}')
     return '\n'.join(L) + '\n'
 
 
